@@ -2,6 +2,8 @@
 From Coq Require Export List NArith ZArith Bool Lia String Ascii.
 Export ListNotations.
 Open Scope N_scope.
+(* String.length would shadow List.length after the export above *)
+Notation length := List.length (only parsing).
 
 Notation byte := N (only parsing).
 Notation bytes := (list N) (only parsing).
